@@ -256,47 +256,6 @@ class FakeMP:
         return False
 
 # ------------------------------------------------------------------ caches and pdfs
-def mk_cache1(dadi, rng, n=None, extra=None, ns=None, func=demo1, bounds=None, cpus=1):
-    n = int(rng.integers(2, 6)) if n is None else n
-    ns = [int(rng.integers(1, 3)), int(rng.integers(1, 4))] if ns is None else ns
-    bounds = (10 ** rng.uniform(-3, -1), 10 ** rng.uniform(0.5, 2.5)) if bounds is None else bounds
-    extra = [round(float(rng.uniform(0.5, 6)), 3) for _ in range(int(rng.integers(0, 3)))] if extra is None else extra
-    p0 = round(float(rng.uniform(0.5, 2.0)), 3)
-    if func is demo1_1pop:
-        ns = [ns[0]]
-    return dadi.DFE.Cache1D([p0], ns, func, [8], gamma_bounds=bounds, gamma_pts=n, additional_gammas=list(extra), cpus=cpus)
-
-def mk_cache2(dadi, rng, n=None, extra=None, ns=None, func=demo2, bounds=None, cpus=1, **kw):
-    n = int(rng.integers(2, 5)) if n is None else n
-    ns = [int(rng.integers(1, 3)), int(rng.integers(1, 3))] if ns is None else ns
-    bounds = (10 ** rng.uniform(-3, -1), 10 ** rng.uniform(0.5, 2.5)) if bounds is None else bounds
-    extra = [round(float(rng.uniform(0.5, 6)), 3) for _ in range(int(rng.integers(0, 3)))] if extra is None else extra
-    p0 = round(float(rng.uniform(0.5, 2.0)), 3)
-    return dadi.DFE.Cache2D([p0], ns, func, [8], gamma_bounds=bounds, gamma_pts=n, additional_gammas=list(extra), cpus=cpus, **kw)
-
-def pdf1_cases(dadi, rng):
-    """(name, function, params) — documented parameterisations of PDFs.py"""
-    P = dadi.DFE.PDFs
-    return [
-        ('exponential', P.exponential, [float(10 ** rng.uniform(-1, 2))]),
-        ('gamma', P.gamma, [float(rng.uniform(0.15, 2.5)), float(10 ** rng.uniform(-1, 2.5))]),
-        ('lognormal', P.lognormal, [float(rng.uniform(-2, 5)), float(rng.uniform(0.3, 2.5))]),
-        ('beta', P.beta, [float(rng.uniform(1.0, 3)), float(rng.uniform(1.0, 3))]),
-    ]
-
-def pdf2_cases(dadi, rng):
-    P = dadi.DFE.PDFs
-    rho = float(rng.choice([0.0, rng.uniform(-0.95, 0.95), 0.9, -0.7]))
-    mu, sg = float(rng.uniform(-2, 5)), float(rng.uniform(0.4, 2.5))
-    out = [
-        ('biv_lognormal3', P.biv_lognormal, [mu, sg, rho]),
-        ('biv_lognormal5', P.biv_lognormal, [mu, float(rng.uniform(-2, 5)), sg, float(rng.uniform(0.4, 2.5)), rho]),
-        ('biv_ind_gamma2', P.biv_ind_gamma, [float(rng.uniform(0.2, 2.5)), float(10 ** rng.uniform(-1, 2.5))]),
-        ('biv_ind_gamma4', P.biv_ind_gamma, [float(rng.uniform(0.2, 2.5)), float(rng.uniform(0.2, 2.5)),
-                                            float(10 ** rng.uniform(-1, 2.5)), float(10 ** rng.uniform(-1, 2.5))]),
-    ]
-    return out
-
 def small(x, nd=6):
     a = np.asarray(x, dtype=float).ravel()
     return [float(v) for v in a[:nd]]
@@ -717,7 +676,7 @@ def k_merge(chk, drv, dadi, caches, desc):
     N = len(tabs[0]) if tabs else 0
     out = drv.ask('c17.merge %d %s' % (N, '|'.join(table_tok(t) for t in tabs) if tabs else '-'))
     if out.startswith('err '):
-        if raised is not None and (out[4:] == raised or (out[4:] == 'IndexError' and raised.startswith('IndexError'))): chk.k_ok('merge:' + out[4:])
+        if raised is not None and out[4:].split(':')[0] == raised.split(':')[0]: chk.k_ok('merge:' + out[4:])
         else: chk.k_bad('merge', inp, raised or 'returned a cache', out, float('inf'))
         return
     if raised is not None:
@@ -1374,7 +1333,7 @@ def run(chk, ctx):
         'numpy.trapz / boolean-mask indexing / np.squeeze are tied by correspondence (K), not translated',
     ]
     chk.assumptions += ['pdf values, quad/dblquad results and square roots enter the model as numbers taken from the implementation run (classified by their bounds)']
-    nK = 3 if not thorough else 10
+    nK = 3 if not thorough else 16
     # ------------------------------------------------------------ K
     if drv is not None and drv.ok():
         cfg = drv.ask('c17.cfg')
@@ -1469,7 +1428,7 @@ def run(chk, ctx):
                     desc['tampered'] = d
                 k_merge(chk, drv, dadi, lst, desc)
     # ------------------------------------------------------------ L3
-    nL = 4 if not thorough else 16
+    nL = 4 if not thorough else 30
     for ci in range(nL):
         sp = rnd_spec(rng, '1d', ['demo1', 'demo1_1pop'][ci % 2])
         for name, params in pdf1_specs(rng):
@@ -1509,6 +1468,13 @@ def run(chk, ctx):
             if name == 'biv_lognormal':
                 oracle(chk, dadi, 'pp2', dict(cache=sp, pdf=name, biv_params=params, point=[pt[0], pt[1], pt[0], pt[1]], rho=params[-1],
                                               theta=rnd_theta(rng), symmetric=True))
+    # mass pushed into each exterior corner / edge in turn (gamma1 and gamma2 beyond the grid on different sides)
+    for rep in range(2 if not thorough else 6):
+        sp = rnd_spec(rng, '2d', 'demo2', extra=[])
+        lo, hi = math.log(sp['bounds'][0]), math.log(sp['bounds'][1])
+        for m1, m2 in ((hi + 1.5, lo - 1.5), (lo - 1.5, hi + 1.5), (hi + 1.5, hi + 1.0), (lo - 1.5, lo - 1.0), (hi + 1.0, (lo + hi) / 2), ((lo + hi) / 2, lo - 1.0)):
+            params = [r3(m1), r3(m2), r3(rng.uniform(0.6, 1.2)), r3(rng.uniform(0.6, 1.2)), float(rng.choice([0.0, 0.5, -0.5]))]
+            oracle(chk, dadi, 'int2d', dict(cache=sp, pdf='biv_lognormal', params=params, theta=rnd_theta(rng), exterior_int=True))
     # selection-neutral spectra on the default-like grid: distributions inside and beyond the cached range
     fine2 = spec_cache('2d', 'neutral2', 1.0, [1, 1], (1e-4, 2000.0), 60 if not thorough else 100, [])
     for params in [[2.0, 1.5, 0.0], [5.0, 1.0, 0.5], [0.0, 0.5, 0.9], [8.0, 1.0, 0.5], [10.0, 1.5, 0.9], [8.0, 3.0, 7.0, 1.0, -0.5]]:
@@ -1547,10 +1513,10 @@ def run(chk, ctx):
             for cpus in ([1, 2, 3] if not thorough else [1, 2, 3, 4, 8]):
                 if not thorough and cpus == 3 and (at[0] + at[1]) % 2: continue
                 oracle(chk, dadi, 'fault', dict(dim=dim, n=n, extra=extra, cpus=cpus, at=list(at)))
-    for rep in range(6 if not thorough else 30):
-        split = int(rng.integers(2, 7)); job = int(rng.integers(0, split))
-        oracle(chk, dadi, 'fault', dict(dim=2, n=2, extra=[2.5], cpus=int(rng.integers(1, 4)), at=[int(rng.integers(0, 3)), int(rng.integers(0, 3))],
-                                        split=split, job=job))
+    for rep in range(12 if not thorough else 60):
+        split = int(rng.integers(2, 7)); at = [int(rng.integers(0, 3)), int(rng.integers(0, 3))]
+        job = (at[0] * 3 + at[1]) % split if rep % 2 == 0 else int(rng.integers(0, split))     # every other case: the job that owns the faulty pair
+        oracle(chk, dadi, 'fault', dict(dim=2, n=2, extra=[2.5], cpus=int(rng.integers(1, 4)), at=at, split=split, job=job))
     for split in range(1, 7):
         for cpus in ([1, 2] if not thorough else [1, 2, 3, 4]):
             n = int(rng.integers(1, 4)); extra = [2.5][:int(rng.integers(0, 2))]
@@ -1563,7 +1529,7 @@ def run(chk, ctx):
         if dups:
             oracle(chk, dadi, 'subsets', dict(mult=list(mult), order=[int(v) for v in order], tamper=int(dups[int(rng.integers(0, len(dups)))])))
     # compiled pdfs
-    for rep in range(25 if not thorough else 200):
+    for rep in range(28 if not thorough else 600):
         npx = int(rng.integers(2, 9)); npy = int(rng.integers(2, 9))
         xx = np.sort(10 ** rng.uniform(-4, 3.5, size=npx)).tolist(); yy = np.sort(10 ** rng.uniform(-4, 3.5, size=npy)).tolist()
         rho = float(rng.choice([0.0, rng.uniform(-0.999, 0.999), 0.99, -0.99]))
